@@ -38,17 +38,17 @@ def C10_full : Prop :=
 /-- the region of `C10_partial`: record types whose payload is opaque to DNS, one record -/
 def C10_region (t : RRType) (encodedLen : Nat) : Bool :=
   match t with
-  | .null => encodedLen ≤ SA.Gen.wrapChunkNull
-  | .priv => encodedLen ≤ SA.Gen.wrapChunkPrivate
-  | .txt => encodedLen ≤ SA.Gen.wrapChunkTxt
+  | .null => encodedLen ≤ SA.Gen.C09.wrapChunkNull
+  | .priv => encodedLen ≤ SA.Gen.C09.wrapChunkPrivate
+  | .txt => encodedLen ≤ SA.Gen.C09.wrapChunkTxt
   | _ => false
 
 /-- PRIVATE answers use the type number that is registered with miekg/dns (was 65000 vs 0xFFA0) -/
-theorem C10_private_registered : SA.Gen.queryTypePrivate = SA.Gen.typeSocketAce := by decide
+theorem C10_private_registered : SA.Gen.C09.queryTypePrivate = SA.Gen.C09.typeSocketAce := by decide
 
 /-- UnwrapDnsResponse decodes presentation escapes for TXT and for names, the TXT wrapper escapes '\' -/
 theorem C10_unwrap_undoes_escaping :
-    SA.Gen.unwrapUnescapesTxt = true ∧ SA.Gen.unwrapUnescapesNames = true ∧ SA.Gen.wrapTxtEscapes = true := by decide
+    SA.Gen.C09.unwrapUnescapesTxt = true ∧ SA.Gen.C09.unwrapUnescapesNames = true ∧ SA.Gen.C09.wrapTxtEscapes = true := by decide
 
 theorem encodeResp_ne_nil (b32 down : Codec) (r : Resp) : encodeResp b32 down r ≠ [] := by
   cases r with
@@ -88,8 +88,8 @@ theorem C10_partial (b32 down : Codec) (hb : b32.Good) (hd : down.Good)
   have h16 : rd16 (le16 1 ++ data) = some (1, data) := rd16_le16 1 (by decide) data
   cases t with
   | null =>
-    have hlen : data.length ≤ SA.Gen.wrapChunkNull := by simpa [C10_region] using hreg
-    have hc : SA.Gen.wrapChunkNull + 2 ≤ 65535 := by decide
+    have hlen : data.length ≤ SA.Gen.C09.wrapChunkNull := by simpa [C10_region] using hreg
+    have hc : SA.Gen.C09.wrapChunkNull + 2 ≤ 65535 := by decide
     have hl2 : ¬ ((le16 1 ++ data).length < 2) := by rw [le16_len]; omega
     have hl3 : (le16 1 ++ data).length ≤ 65535 := by rw [le16_len]; omega
     have hdrop : (le16 1 ++ data).drop 2 = data := le16_drop2 1 data
@@ -103,8 +103,8 @@ theorem C10_partial (b32 down : Codec) (hb : b32.Good) (hd : down.Good)
     have := roundTrip_of b32 down .null domain r r _ _ data h1 hq h2 h3 hdec
     simpa using this
   | priv =>
-    have hlen : data.length ≤ SA.Gen.wrapChunkPrivate := by simpa [C10_region] using hreg
-    have hc : SA.Gen.wrapChunkPrivate + 2 ≤ 65535 := by decide
+    have hlen : data.length ≤ SA.Gen.C09.wrapChunkPrivate := by simpa [C10_region] using hreg
+    have hc : SA.Gen.C09.wrapChunkPrivate + 2 ≤ 65535 := by decide
     have hl2 : ¬ ((le16 1 ++ data).length < 2) := by rw [le16_len]; omega
     have hl3 : ¬ ((le16 1 ++ data).length > 65535) := by rw [le16_len]; omega
     have hdrop : (le16 1 ++ data).drop 2 = data := le16_drop2 1 data
@@ -118,23 +118,23 @@ theorem C10_partial (b32 down : Codec) (hb : b32.Good) (hd : down.Good)
     have := roundTrip_of b32 down .priv domain r r _ _ data h1 hq h2 h3 hdec
     simpa using this
   | txt =>
-    have hlen : data.length ≤ SA.Gen.wrapChunkTxt := by simpa [C10_region] using hreg
+    have hlen : data.length ≤ SA.Gen.C09.wrapChunkTxt := by simpa [C10_region] using hreg
     have hesc := C10_unwrap_undoes_escaping
     -- one string: the order tag "aa" followed by the data, backslashes doubled
     have htag0 : orderTag 0 = [97, 97] := by decide
     have hesc97 : escTxtByte 97 = [97] := by decide
     have h1 : wrap .txt domain (encodeResp b32 down r) = some [.txt [escapeBackslashes (orderTag 0 ++ data)]] := by
       rw [hdata]
-      have ht : data.take SA.Gen.wrapChunkTxt = data := List.take_of_length_le hlen
-      have hdr : data.drop SA.Gen.wrapChunkTxt = [] := List.drop_of_length_le hlen
+      have ht : data.take SA.Gen.C09.wrapChunkTxt = data := List.take_of_length_le hlen
+      have hdr : data.drop SA.Gen.C09.wrapChunkTxt = [] := List.drop_of_length_le hlen
       have he : data.isEmpty = false := by cases data with | nil => exact absurd rfl hne | cons _ _ => rfl
-      have h250 : ¬ (1 = SA.Gen.wrapTxtStrings) := by decide
+      have h250 : ¬ (1 = SA.Gen.C09.wrapTxtStrings) := by decide
       simp only [wrap, hk, txtStrings, he, Bool.false_eq_true, if_false, List.isEmpty_nil, if_true, ht, hdr,
         hesc.2.2, List.length_cons, List.length_nil, Nat.zero_add, h250]
       cases k <;> simp [txtStrings]
     have hs : SA.Bytes (orderTag 0 ++ data) := bytes_append (by decide) hbytes
     have hsl : ¬ (255 < (orderTag 0 ++ data).length) := by
-      have : SA.Gen.wrapChunkTxt + 2 ≤ 255 := by decide
+      have : SA.Gen.C09.wrapChunkTxt + 2 ≤ 255 := by decide
       simp [htag0]; omega
     have hl2 : ¬ ((orderTag 0 ++ data).length < 2) := by simp [htag0]
     have hdrop : (orderTag 0 ++ data).drop 2 = data := by simp [htag0]
@@ -233,7 +233,7 @@ example : ∀ t ∈ [RRType.null, RRType.txt, RRType.priv],
   exact C10_partial raw raw raw_good raw_good t _ _ hr (by decide) (by decide) hreg
 
 /-- every error code of BadErrors is an admissible error text -/
-example : ∀ e ∈ SA.Gen.badErrors, ErrOk e := by decide
+example : ∀ e ∈ SA.Gen.C09.badErrors, ErrOk e := by decide
 
 end SA.DnsResp
 
